@@ -174,6 +174,9 @@ func runC16(args []string) int {
 
 	// ---- part A
 	for i := 0; i < nA; i++ {
+		if rep.outOfTime() {
+			break
+		}
 		ps := uint32(1024)
 		h0 := randHeader(r, ps)
 		h1 := randHeader(r, ps)
@@ -259,6 +262,9 @@ func runC16(args []string) int {
 		rep.count("B:scenario/file-beyond-its-limit-frees-its-end", 1)
 	}
 	for h := 0; h < nB; h++ {
+		if rep.outOfTime() {
+			break
+		}
 		hseed := r.Int63()
 		hr := rand.New(rand.NewSource(hseed))
 		cfg := gen.PickConfig(hr)
